@@ -88,17 +88,18 @@ type mapRoot struct {
 }
 
 type mapRun struct {
-	cfg    mapCfg
-	kc     *keyCodec
-	vc     *valCodec
-	st     *recStore
-	cache  mast.NodeCache
-	hs     map[int]*mapHandle
-	roots  []mapRoot
-	nextR  int
-	out    *json.Encoder
-	proj   *projector
-	nsteps int
+	cfg     mapCfg
+	kc      *keyCodec
+	vc      *valCodec
+	st      *recStore
+	persist mast.Persist // when set, what the trees are given instead of st
+	cache   mast.NodeCache
+	hs      map[int]*mapHandle
+	roots   []mapRoot
+	nextR   int
+	out     *json.Encoder
+	proj    *projector
+	nsteps  int
 }
 
 func nfOf(s string) mast.CreateRemoteOptions {
@@ -113,6 +114,9 @@ func (r *mapRun) remoteCfg(withCache bool) *mast.RemoteConfig {
 		KeysLike:                r.kc.zero,
 		ValuesLike:              r.vc.zero,
 		StoreImmutablePartsWith: r.st,
+	}
+	if r.persist != nil {
+		c.StoreImmutablePartsWith = r.persist
 	}
 	if withCache && r.cache != nil {
 		c.NodeCache = r.cache
@@ -200,6 +204,8 @@ func (r *mapRun) observe(ev *mapEvent) {
 		ev.RObs = append(ev.RObs, ro)
 	}
 }
+
+func (r *mapRun) emitNoObs(ev *mapEvent) { r.emit(ev) }
 
 func (r *mapRun) emit(ev *mapEvent) {
 	if ev.Ents == nil {
@@ -651,5 +657,31 @@ func (r *mapRun) dumpStores() {
 			ev.Node.C = append(ev.Node.C, rn.Links...)
 		}
 		storesOut.Encode(ev)
+	}
+}
+
+// replayMapTrace executes a behaviour generated by TLC from MastGen.tla (spec -> code): the layer assignment TLC chose is
+// reproduced with the user-Key codec, every step is executed on the real library and logged for TraceMast.
+func replayMapTrace(id int, seed int64, beh behT, out *json.Encoder) {
+	rng := rand.New(rand.NewSource(seed))
+	cfg := mapCfg{ID: id, Bf: 2, NK: len(beh.Layers), NV: 2, KT: "userkey", VT: valTypes[rng.Intn(len(valTypes))],
+		NF: []string{"bin", "v1"}[rng.Intn(2)], Cache: []string{"none", "large", "tiny"}[rng.Intn(3)], Layers: beh.Layers, Src: "tlc"}
+	r := newMapRun(cfg, rng, out)
+	r.reset()
+	r.exec(absOp{Op: "new", H: 1})
+	live := map[int]bool{1: true}
+	for _, st := range beh.Steps {
+		switch st.Op {
+		case "new":
+			live[st.H] = true
+		case "clone":
+			live[st.G] = true
+		}
+		r.exec(st)
+	}
+	for h := 1; h <= maxHandles; h++ {
+		if live[h] {
+			r.exec(absOp{Op: "root", H: h})
+		}
 	}
 }
